@@ -201,6 +201,15 @@ func constRangeLoop(hdr *ssa.BasicBlock) (idx *ssa.Phi, entry *ssa.BasicBlock, v
 	}
 	ph, isP := bo.X.(*ssa.Phi)
 	hi, isC := constInt(bo.Y)
+	// go/ssa's form of `for i := range T`: the phi starts at -1 and the header tests phi+1
+	rangeForm := false
+	if inc, isInc := bo.X.(*ssa.BinOp); isInc && !isP && inc.Op == token.ADD {
+		if one, ok := constInt(inc.Y); ok && one == 1 {
+			if ph2, ok := inc.X.(*ssa.Phi); ok {
+				ph, isP, rangeForm = ph2, true, true
+			}
+		}
+	}
 	if !isP || !isC || ph.Block() != hdr {
 		return nil, nil, nil, false
 	}
@@ -235,6 +244,9 @@ func constRangeLoop(hdr *ssa.BasicBlock) (idx *ssa.Phi, entry *ssa.BasicBlock, v
 		end = hi
 	default:
 		return nil, nil, nil, false
+	}
+	if rangeForm {
+		end-- // the test is on phi+1
 	}
 	if end-start > 4096 {
 		return nil, nil, nil, false
